@@ -204,7 +204,17 @@ def run(prog, rep):
     check_writer(rep, prog, wi, weng, False)
     rep.floor("C16-R2", 2)
     # ---- reader
-    reng = terms.Engine(prog, inline=True, hooks=E.Hooks(["load_inputs::"], opaque_names=["load_inputs::read_zipped_file"]))
+    # the helper that reads one entry of the archive stays a symbol: the private function of the module that takes the archive and an
+    # entry name and reads that entry to a string (found by what it calls, not by its name)
+    raw = terms.Engine(prog, inline=False)
+    readers = []
+    for g in prog.lib_fns():
+        if g.path.startswith("load_inputs::") and g is not r and len(g.params) == 2:
+            gs = raw.summary(g)
+            if any(x.kind == "mcall" and x.name == "by_name" for x in gs.sites) and any(x.kind == "mcall" and x.name == "read_to_string" for x in gs.sites):
+                readers.append(g)
+    reader_names = [g.path.rsplit("::", 1)[-1] for g in readers]
+    reng = terms.Engine(prog, inline=True, hooks=E.Hooks(["load_inputs::"], opaque_names=[g.path for g in readers]))
     rs = reng.summary(r)
     rpn = r.param_names()
     where = f"{r.file}:{r.line}"
@@ -245,8 +255,13 @@ def run(prog, rep):
         why = f"the BDD is parsed with {last(b[1]) if b[0] == 'call' else sem.short(b, 40)}; the writer uses write_as_string"
         if good:
             src = strip_str(b[2][0])
-            good = (src[0] == "proj" and last(src[2]) == "Ok" and src[1][0] in ("call", "rec") and last(src[1][1]) == "read_zipped_file"
-                    and name is not None and strip_str(src[1][2][1]) == name)
+            if reader_names:
+                good = (src[0] == "proj" and last(src[2]) == "Ok" and src[1][0] in ("call", "rec") and last(src[1][1]) in reader_names
+                        and name is not None and strip_str(src[1][2][1]) == name)
+            else:
+                # read in place: the text comes from `by_name(<that entry name>)` + read_to_string
+                by = [y for y in [src] + list(subterms(src)) if y[0] == "call" and isinstance(y[1], str) and last(y[1]) == "by_name" and len(y[2]) == 2]
+                good = bool(by) and name is not None and all(strip_str(y[2][1]) == name for y in by) and "read_to_string" in pt(src)
             why = "the parsed text is not the content of the entry whose name gives the label"
     rep.check(good, "C16-R1", "reader/parse", st.where(), "Bdd::from_string of that entry's content, wrapped with the caller's context, stored under the label", why)
     rep.floor("C16-R1", 4)
